@@ -200,7 +200,7 @@ pub fn generate(cfg: &Cfg) -> Vec<String> {
     let mut cases = Vec::new();
     let prof = profile();
     let arms = ["generic", "sse2", "avx2"];
-    let count = (if cfg.thorough { 10_000 } else { 700 }) * cfg.boost;
+    let count = (if cfg.thorough { 10_000 } else { 1_000 }) * cfg.boost;
     for n in 0..count {
         let arm = arms[n % 3];
         let m = match n % 13 {
